@@ -221,6 +221,18 @@ func Pool() []Block {
 				N("PASTE", "@mt"),
 			}
 		}},
+		// a macro whose children nest by position (no parentheses), holding an implicit URL block
+		// that a path-bearing method leaves; pasted before its definition; a parenthesised macro
+		// nobody pastes ends the implicit one
+		{Name: "M_impl", Kind: "macro", Defines: []string{"macro:@mi", "macro:@mi_end", "path:/mi"}, Nodes: func() []*Node {
+			return []*Node{
+				N("PASTE", "@mi"),
+				N("MACRO", "@mi").WithKids(
+					N("URL", "/mi/a").WithKids(N("GET").WithKids(N("200", "any"))),
+					N("POST", "/mi/b").WithKids(N("200", "any"))),
+				N("MACRO", "@mi_end").WithParen().WithKids(N("200", "any")),
+			}
+		}},
 		{Name: "M_nest", Kind: "macro", Defines: []string{"macro:@outer"}, Needs: []string{"macro:@resp"}, Nodes: one(func() *Node {
 			return N("MACRO", "@outer").WithParen().WithKids(N("200", "any"), N("PASTE", "@resp"))
 		})},
